@@ -25,6 +25,8 @@ func runC05(c *Check, tier string) {
 	ruleR14d(c, "R05f")
 	// a tainted target whose forced execution failed stays tainted (it is attempted again next time)
 	ruleR13b(c, analyseGate(c, "R05g"), "R05g")
+	// a missing or unreadable declared output fails the target: no error on the write path is dropped
+	ruleWritePathErrors(c, "R05i")
 	// a target that failed (also by timeout) is recorded as failed: the routine reports every outcome but cancellation
 	if w := findWalker(c, "R05h"); w != nil {
 		shareRule(c, "R05h", "after the callback returned the node routine reports a completion on every path unless the error is context.Canceled (same obligation as R04c)", 1, "R04c", func(sub *Check) { ruleR04c(sub, w) }, func(k string) bool { return strings.Contains(k, "completion-on-every-exit") })
@@ -334,7 +336,7 @@ func ruleR05d(c *Check, rule string) {
 				_, isPanic := in.(*ssa.Panic)
 				return isPanic
 			}
-			r1, _ := engine.PathExists(fn, ec, isRet, engine.PathQuery{CutInstr: noReturn, CutEdge: engine.NilErrEdgesOf(ec)})
+			r1, _ := engine.PathExists(fn, ec, isRet, engine.PathQuery{CutInstr: noReturn, CutEdge: engine.NilErrEdgesOfStrict(ec)})
 			c.Require(!r1, rule, "exit-nonzero-on-execution-error/"+fname, "with a non-nil execution error every path from Execute ends in os.Exit/Fatalf", "the command can return normally (exit status 0) although Execute returned an error (e.g. after an interrupt)", c.P.InstrPos(ec))
 			// collected errors
 			isNoErrs := func(a engine.Atom) bool {
